@@ -625,6 +625,19 @@ func (f *Frame) blockEntry(b *ssa.BasicBlock) *State {
 	if f.contract != nil {
 		lspec = f.contract.Loops[li.ord]
 	}
+	// 0. automatic invariant of range-over-slice loops: the hidden index never drops below -1
+	var autoPhis []*ssa.Phi
+	for _, in := range b.Instrs {
+		if phi, ok := in.(*ssa.Phi); ok && phi.Comment == "rangeindex" {
+			autoPhis = append(autoPhis, phi)
+		}
+	}
+	for _, phi := range autoPhis {
+		if ev, ok := phiVals[phi]; ok && tr.safety {
+			c.addObl(&Obligation{Name: fmt.Sprintf("%s#loop%d.auto.init", tr.oblPrefix, li.ord), Kind: "inv.init",
+				Guard: st.guard, Goal: c.it.le(I64, c.it.iconst(-1), ev.t), Pos: "-1 <= rangeindex", Func: tr.oblPrefix})
+		}
+	}
 	// 1. invariants hold on entry
 	if lspec != nil {
 		env := f.loopEnv(b, phiVals, st)
@@ -669,6 +682,9 @@ func (f *Frame) blockEntry(b *ssa.BasicBlock) *State {
 		f.vals[phi] = fv
 		facts = append(facts, tr.typeFacts(hst, fv)...)
 	}
+	for _, phi := range autoPhis {
+		facts = append(facts, c.it.le(I64, c.it.iconst(-1), hs.phiFresh[phi].t))
+	}
 	hst.guard = and(append([]Sx{hst.guard}, facts...)...)
 	hs.st = hst.clone()
 	f.headerSt[b.Index] = hs
@@ -710,7 +726,8 @@ func (tr *Translator) typeFacts(st *State, v Val) []Sx {
 			}
 		}
 		if isStringType(v.typ) {
-			facts = append(facts, c.it.le(intKind{64, true}, c.it.iconst(0), sx("slen", v.t)))
+			facts = append(facts, c.it.le(intKind{64, true}, c.it.iconst(0), sx("slen", v.t)), c.it.le(intKind{64, true}, sx("slen", v.t), c.it.iconst(1<<40)))
+			c.note("lengths of strings and slices are assumed to be at most 2^40 (a memory bound)")
 		}
 	case *types.Pointer, *types.Map, *types.Chan:
 		facts = append(facts, sx("<=", "0", v.t), sx("<", v.t, tr.allocTerm(st)))
@@ -771,6 +788,14 @@ func (f *Frame) takeEdge(b *ssa.BasicBlock, succ *ssa.BasicBlock, st *State) {
 		// back edge: check invariants and variant
 		li := f.loops[succ.Index]
 		hs := f.headerSt[succ.Index]
+		if li != nil && tr.safety {
+			for phi, v := range pv {
+				if phi.Comment == "rangeindex" {
+					c.addObl(&Obligation{Name: fmt.Sprintf("%s#loop%d.auto.keep", tr.oblPrefix, li.ord), Kind: "inv.keep",
+						Guard: st.guard, Goal: c.it.le(I64, c.it.iconst(-1), v.t), Pos: "-1 <= rangeindex", Func: tr.oblPrefix})
+				}
+			}
+		}
 		var lspec *LoopSpec
 		if f.contract != nil && li != nil {
 			lspec = f.contract.Loops[li.ord]
